@@ -3,6 +3,7 @@ package loom
 import (
 	"sync/atomic"
 )
+import "unsafe"
 
 /********************************************************************
 created:    2019-06-28
@@ -18,6 +19,7 @@ func AddIf64(addr *int64, delta int64, predicate func(old int64) bool) bool {
 
 	var expect, update int64
 	for {
+		verifYield(13, unsafe.Pointer(addr))
 		expect = atomic.LoadInt64(addr)
 		if !predicate(expect) {
 			return false
@@ -25,6 +27,7 @@ func AddIf64(addr *int64, delta int64, predicate func(old int64) bool) bool {
 
 		update = expect + delta
 
+		verifYield(14, unsafe.Pointer(addr))
 		if atomic.CompareAndSwapInt64(addr, expect, update) {
 			return true
 		}
